@@ -1,4 +1,5 @@
 import BbRe.Lemmas.SchedLiveFuel
+import BbRe.Lemmas.SchedLiveQuiesce6
 /-!
 # C06 — failures time out, wake everyone, and leak nothing
 
@@ -175,15 +176,9 @@ theorem enter_runs_everything_due (h : Hints) (s s' : State) (hs : Reachable s) 
     (hh : enter h s now = .ok s') : s'.now = now ∧ ∀ e ∈ s'.cleanup, now < e.deadline :=
   enter_exhaustive (kwc_reachable hs) hnow hh
 
-/-- **quiescence_partial.**  In a reachable state whose cleanup queue has run empty, no worker is outside
-`Synchronize`, every worker-created queue still has a worker, and every operation has a waiter or is a
-background-learning operation of an uncompleted task.
-
-Full statement (not proved): after cancelling all streams and blocked `Synchronize` calls and iterating
-`enter` past all deadlines, no workers, no operations other than those of queued background tasks, no
-removable queues and an empty deduplication map remain.  Missing: (i) `Op.waiters` equals the number of
-attached streams (the model lets one client id attach twice, which would leak a waiter), (ii) the
-deduplication map invariant (C03). -/
+/-- **quiescence, static part.**  In a reachable state whose cleanup queue has run empty, no worker is
+outside `Synchronize`, every worker-created queue still has a worker, and every operation has a waiter or is a
+background-learning operation of an uncompleted task (the full dynamic statement is `quiescence` below). -/
 theorem quiescence_partial (s : State) (hs : Reachable s) (hempty : s.cleanup = []) :
     (∀ wk ∈ s.workers, wk.inSync = true) ∧
     (∀ qq sq, s.scq? qq = some sq → sq.mayBeRemoved = true → ∃ wk ∈ s.workers, wk.scq = qq) ∧
@@ -207,6 +202,47 @@ theorem quiescence_partial (s : State) (hs : Reachable s) (hempty : s.cleanup = 
       rcases hc.opFg o op e hb (by simp [noEx]) with h | h
       · exact .inl h
       · exact absurd h (hno _)
+
+/-- **No waiter leaks.**  Along a run in which no two `Execute` / `WaitExecution` segments use the same
+client id (`FreshClients`: each id names one call, which the harness and the gRPC server guarantee), every
+operation's waiter count equals the number of streams parked on it and every client has at most one parked
+stream. -/
+theorem waiters_exact (cfg : Cfg) (gs : List Seg) (hf : FreshClients gs) :
+    (∀ o op, (run (State.init cfg) gs).op? o = some op →
+      op.waiters = ((run (State.init cfg) gs).streams.filter (fun st => st.op = o)).length) ∧
+    ((run (State.init cfg) gs).streams.map (·.client)).Nodup :=
+  weq_of_fresh cfg gs hf
+
+/-- **quiescence.**  `quiesce` (executable: every parked stream is cancelled, every blocked `Synchronize`
+and `TerminateWorkers` call returns, then the clock is advanced beyond every armed deadline, repeatedly,
+`workers + operations + queues + 1` times at most) takes every state reached by a run with fresh client ids
+to a reachable state that retains nothing created on behalf of clients or workers: no workers, no parked
+streams or blocked operator calls, an empty cleanup queue, an empty deduplication map, no worker-created
+(removable) size-class queue; every remaining operation may exist without waiters, has none, and belongs to
+an existing task that lists it; every remaining task is an uncompleted, unassigned, QUEUED
+background-learning task. -/
+theorem quiescence (cfg : Cfg) (gs : List Seg) (hf : FreshClients gs) :
+    let s := quiesce (run (State.init cfg) gs)
+    Reachable s ∧ s.workers = [] ∧ s.streams = [] ∧ s.terms = [] ∧ s.cleanup = [] ∧ s.dedup = [] ∧
+    (∀ qq sq, s.scq? qq = some sq → sq.mayBeRemoved = false) ∧
+    (∀ o op, s.op? o = some op → op.mayExistWithoutWaiters = true ∧ op.waiters = 0 ∧
+      ∃ t, s.task? op.task = some t ∧ o ∈ t.ops) ∧
+    (∀ k t, s.task? k = some t → t.background = true ∧ t.response = none ∧ t.worker = none ∧ t.queued = true) := by
+  obtain ⟨hr, hq⟩ := quiesce_of_fresh cfg gs hf
+  exact ⟨hr, hq.workers, hq.streams, hq.terms, hq.cleanup, hq.dedup, hq.queues,
+    fun o op e => ⟨(hq.ops o op e).1, (hq.ops o op e).2, hq.opTask o op e⟩, hq.tasks⟩
+
+/-- The same from any reachable state whose waiter counts are exact. -/
+theorem quiescence_from (s : State) (hs : Reachable s)
+    (hw : ∀ o op, s.op? o = some op → op.waiters = (s.streams.filter (fun st => st.op = o)).length)
+    (hn : (s.streams.map (·.client)).Nodup) :
+    Reachable (quiesce s) ∧ Quiescent (quiesce s) :=
+  quiesce_spec ⟨hs, hw, hn⟩
+
+/-- non-vacuity: the demo run has fresh client ids and `quiesce` empties it. -/
+example : FreshClients demo := by unfold FreshClients; decide
+example : (quiesce sDemo).workers.length = 0 ∧ (quiesce sDemo).ops.length = 0 ∧ (quiesce sDemo).tasks.length = 0 ∧
+    (quiesce sDemo).scqs.length = 0 ∧ (quiesce sDemo).cleanup.length = 0 := by decide
 
 /-- non-vacuity: after the clock passes every deadline of the demo nothing is left at all. -/
 example : (run sDemo [.touch h0 60, .touch h0 200]).cleanup.length = 0 ∧
